@@ -41,6 +41,11 @@ class C15Check(ExplainerCheck):
             else:
                 plan["ops"] = gen_schedule(rng2, cfg)
             strip_private(cfg)
+        if cfg.get("arith") == "float" and cfg["loss"]["family"] in ("sq", "abs", "lin") and run_index % 5 == 2:
+            # "accepts any loss with the documented positional signature": also one that reports its zero-one value as
+            # an unsigned or boolean NumPy scalar (C15 compares no values, so the discontinuity does not matter here)
+            cfg["loss"]["family"] = "npbool" if (run_index // 5) % 2 else "npuint8"
+            cfg["loss"].pop("scale_exp", None)
         return plan
 
 
